@@ -186,6 +186,10 @@ def vivo_items(ctx, n, check, sims=('step', 'fast'), id0=1, hooks_bias=False):
         if i % 16 in (2, 3):    # a market order created by the fill hook of one entry while other entries rest further on
             it['strategy'] = 'hook_market'
             it['cfg'] = futures_config(lev=2, fee=0.0, balance=100000)
+        if i % 16 in (10, 11):  # orders created in on_close_position after a mid-minute close (order store reset)
+            it['strategy'] = 'close_hook'
+            it['cfg'] = futures_config(lev=2, fee=0.0, balance=100000)
+            it['walk'] = dict(kind='lattice', n=n_min, seed=ctx.seed * 31 + i, step=3, wick=3, gap_p=0.1, flat_p=0.05)
         if i % 8 in (4, 5):     # two routes on one exchange: matching must stay per symbol
             it['symbols'] = ['BTC-USDT', 'ETH-USDT']
             it['id'] = 100000 + i
